@@ -56,6 +56,8 @@ class Impl:
         from cherab.core.atomic import elements, ZeemanStructure
         from cherab.core import model as M
         from cherab.core.model.lineshape import add_gaussian_line
+        from cherab.core.model.lineshape.stark import add_lorentzian_line, StarkFunction
+        from cherab.core.model.lineshape.doppler import doppler_shift, thermal_broadening
         from cherab.core.math import ConstantVector3D
         self.__dict__.update(locals())
         self.elements = [elements.hydrogen, elements.deuterium, elements.tritium, elements.helium, elements.helium3,
@@ -123,53 +125,176 @@ class Impl:
             s.samples[:] = smp0
         return s
 
-    def scene(self, c):
+    def scene(self, c, state=None):
+        """state = None: constant functions (a scene used once).  Otherwise the distributions and the field are Python
+        callables that read the mutable dictionary `state`, so that one live object can be driven through a history."""
         V = self.Vector3D
         plasma = self.Plasma()
-        plasma.b_field = self.ConstantVector3D(V(*c["b"]))
-        plasma.electron_distribution = self.Maxwellian(c["ne"], c["te"], V(0, 0, 0), 9.1093837015e-31)
         el = self.elements[c["element"]]
-        dist = self.Maxwellian(1e18, c["ts"], V(*c["vel"]), el.atomic_weight * 1.66053906660e-27)
+        if state is None:
+            plasma.b_field = self.ConstantVector3D(V(*c["b"]))
+            plasma.electron_distribution = self.Maxwellian(c["ne"], c["te"], V(0, 0, 0), 9.1093837015e-31)
+            dist = self.Maxwellian(1e18, c["ts"], V(*c["vel"]), el.atomic_weight * 1.66053906660e-27)
+        else:
+            plasma.b_field = lambda x, y, z: V(*state["b"])
+            plasma.electron_distribution = self.Maxwellian(lambda x, y, z: state["ne"], lambda x, y, z: state["te"], V(0, 0, 0),
+                                                           9.1093837015e-31)
+            dist = self.Maxwellian(1e18, lambda x, y, z: state["ts"], lambda x, y, z: V(*state["vel"]),
+                                   el.atomic_weight * 1.66053906660e-27)
         sp = self.Species(el, 0, dist)
         line = self.Line(el, 0, (3, 2))
         return plasma, sp, line, el
 
-    def build(self, c, pol=None):
-        plasma, sp, line, el = self.scene(c)
+    def stub_atomic_data(self, c):
+        """an AtomicData whose defaults are the case's values: exercises `argument or atomic_data.method(line)`"""
+        impl = self
+
+        class StubAD(self.AtomicData):
+            def zeeman_triplet_parameters(self, line):
+                return tuple(c["abg"])
+
+            def stark_model_coefficients(self, line):
+                return tuple(c["stark"])
+
+            def zeeman_structure(self, line, b_field=None):
+                return impl.zeeman_structure(c, {})
+        return StubAD()
+
+    def zeeman_structure(self, c, forms):
+        def fn(a, k):
+            form = forms.get("zs", "callable")
+            if k == 0 and form == "float":
+                return a
+            if form == "function1d":
+                from raysect.core.math.function.float import Arg1D
+                return a + k * Arg1D()
+            return lambda b, a=a, k=k: a + k * b
+        groups = [[(fn(aw, kw), fn(ar, kr)) for aw, kw, ar, kr in c["zs_funcs"][g]] for g in range(3)]
+        if forms.get("zs_container") == "tuple":
+            groups = [tuple(g) for g in groups]
+        return self.ZeemanStructure(*groups)
+
+    @staticmethod
+    def pol_form(pol, forms):
+        f = forms.get("pol_case", "lower")
+        return {"lower": pol, "upper": pol.upper(), "title": pol.title()}[f]
+
+    def build(self, c, pol=None, state=None):
+        import numpy as np
+        plasma, sp, line, el = self.scene(c, state)
         M, cls, w = self.M, c["cls"], c["w"]
+        forms = c.get("forms", {})
         pol = pol or c.get("pol", "no")
+        polkw = {} if (pol == "no" and forms.get("pol_default")) else {"polarisation": self.pol_form(pol, forms)}
+        if forms.get("w_int") and float(w).is_integer():
+            w = int(w)
+        num = (lambda t: tuple(np.float64(v) for v in t)) if forms.get("params") == "numpy" else tuple
         if cls == "GaussianLine":
             return M.GaussianLine(line, w, sp, plasma, self.ad)
         if cls == "MultipletLineShape":
-            return M.MultipletLineShape(line, w, sp, plasma, self.ad, [[x for x, _ in c["mult"]], [r for _, r in c["mult"]]])
+            mult = [[x for x, _ in c["mult"]], [r for _, r in c["mult"]]]
+            f = forms.get("mult", "lists")
+            if f == "tuples":
+                mult = tuple(tuple(r) for r in mult)
+            elif f == "array":
+                mult = np.array(mult)
+            elif f == "readonly":
+                mult = np.array(mult)
+                mult.setflags(write=False)
+            elif f == "strided":
+                big = np.zeros((4, 2 * len(c["mult"])))
+                big[::2, ::2] = mult
+                mult = big[::2, ::2]
+            elif f == "float32" and all(float(np.float32(v)) == v for r in mult for v in r):
+                mult = np.array(mult, dtype=np.float32)
+            return M.MultipletLineShape(line, w, sp, plasma, self.ad, mult)
         if cls == "ZeemanTriplet":
-            return M.ZeemanTriplet(line, w, sp, plasma, self.ad, polarisation=pol)
+            return M.ZeemanTriplet(line, w, sp, plasma, self.ad, **polkw)
         if cls == "ParametrisedZeemanTriplet":
-            return M.ParametrisedZeemanTriplet(line, w, sp, plasma, self.ad, tuple(c["abg"]), polarisation=pol)
+            if forms.get("params") == "atomic_data":
+                return M.ParametrisedZeemanTriplet(line, w, sp, plasma, self.stub_atomic_data(c), **polkw)
+            return M.ParametrisedZeemanTriplet(line, w, sp, plasma, self.ad, num(c["abg"]), **polkw)
         if cls == "ZeemanMultiplet":
-            zs = self.ZeemanStructure(*[[(wl, r) for wl, r in c[k]] for k in ("raw_pi", "raw_sp", "raw_sm")])
-            return M.ZeemanMultiplet(line, w, sp, plasma, self.ad, zs, polarisation=pol)
+            if forms.get("params") == "atomic_data":
+                return M.ZeemanMultiplet(line, w, sp, plasma, self.stub_atomic_data(c), **polkw)
+            return M.ZeemanMultiplet(line, w, sp, plasma, self.ad, self.zeeman_structure(c, forms), **polkw)
         if cls == "StarkBroadenedLine":
             q = self.integrator(c)
-            if q is None:
-                return M.StarkBroadenedLine(line, w, sp, plasma, self.ad, tuple(c["stark"]), polarisation=pol)
-            return M.StarkBroadenedLine(line, w, sp, plasma, self.ad, tuple(c["stark"]), integrator=q, polarisation=pol)
+            kw = dict(polkw)
+            if q is not None:
+                kw["integrator"] = q
+            if forms.get("params") == "atomic_data":
+                return M.StarkBroadenedLine(line, w, sp, plasma, self.stub_atomic_data(c), **kw)
+            return M.StarkBroadenedLine(line, w, sp, plasma, self.ad, num(c["stark"]), **kw)
         if cls == "BeamEmissionMultiplet":
             beam = self.Beam()
             beam.plasma = plasma
             beam.energy = c["benergy"]
             beam.temperature = c["btemp"]
             beam.element = el
-            return M.BeamEmissionMultiplet(line, w, beam, self.ad, *c["mse"])
+            f = forms.get("mse", "float")
+            args = list(c["mse"])
+            if f == "callable":
+                args = [lambda ne, be, v=args[0]: v] + [(lambda ne, v=v: v) for v in args[1:]]
+            elif f == "function":
+                from raysect.core.math.function.float import Constant1D, Constant2D
+                args = [Constant2D(args[0])] + [Constant1D(v) for v in args[1:]]
+            ls = M.BeamEmissionMultiplet(line, w, beam, self.ad, *args)
+            self._last_beam = beam
+            return ls
         raise ValueError(cls)
+
+    def radiance_form(self, R, c):
+        import numpy as np
+        f = c.get("forms", {}).get("R", "float")
+        if f == "numpy":
+            return np.float64(R)
+        if f == "int" and float(R).is_integer() and abs(R) < 2 ** 53:
+            return int(R)
+        return R
+
+    # ---- one live object driven through a history -------------------------------------------------------
+    def live(self, c):
+        """builds the line-shape object of case c ONCE, on a scene whose functions read a mutable state"""
+        state = {k: c[k] for k in ("b", "ne", "te", "ts", "vel")}
+        ls = self.build(c, state=state)
+        return {"ls": ls, "state": state, "beam": getattr(self, "_last_beam", None) if c["cls"] == "BeamEmissionMultiplet" else None,
+                "spectrum": None}
+
+    def run_live(self, lv, c, reuse_spectrum=False):
+        """brings the live object to the configuration of step c through the public routes (scene state, polarisation
+        setter, Beam setters), then calls add_line on a new spectrum or on the spectrum of the previous step"""
+        P, V = self.Point3D, self.Vector3D
+        for k in ("b", "ne", "te", "ts", "vel"):
+            lv["state"][k] = c[k]
+        ls = lv["ls"]
+        if c["cls"] in POLARISED:
+            ls.polarisation = self.pol_form(c["pol"], c.get("forms", {}))
+        if lv["beam"] is not None:
+            lv["beam"].energy = c["benergy"]
+            lv["beam"].temperature = c["btemp"]
+        if not (reuse_spectrum and lv["spectrum"] is not None):
+            lv["spectrum"] = self.spectrum(c, c.get("smp0"))
+        s = lv["spectrum"]
+        R = self.radiance_form(c["R"], c)
+        if c["cls"] == "BeamEmissionMultiplet":
+            s = ls.add_line(R, P(0, 0, 0), P(0, 0, 0), V(*c["bdir"]), V(*c["dir"]), s)
+        else:
+            s = ls.add_line(R, P(0.1, 0.2, 0.3), V(*c["dir"]), s)
+        lv["spectrum"] = s
+        return [float(v) for v in s.samples]
 
     def run(self, c, pol=None, smp0=None, R=None):
         """returns the samples after add_line as a list of floats"""
         P, V = self.Point3D, self.Vector3D
-        R = c["R"] if R is None else R
+        R = self.radiance_form(c["R"], c) if R is None else R
         s = self.spectrum(c, smp0)
         if c["cls"] == "direct":
             s = self.add_gaussian_line(R, c["lam"], c["sig"], s)
+            return [float(v) for v in s.samples]
+        if c["cls"] == "direct_lorentz":
+            q = self.integrator(c) or self.GaussianQuadrature()
+            s = self.add_lorentzian_line(R, c["lam"], c["sig"], s, q)
             return [float(v) for v in s.samples]
         ls = self.build(c, pol)
         if c["cls"] == "BeamEmissionMultiplet":
@@ -201,6 +326,8 @@ def walk_case(W, c, m, pol=None, R=None):
     R = fr(c["R"] if R is None else R)
     if cls == "direct":
         return [("G", R, fr(c["lam"]), fr(c["sig"]))]
+    if cls == "direct_lorentz":
+        return [("L", R, fr(c["lam"]), fr(c["sig"]))]
     w, ts, vel, d = fr(c["w"]), fr(c["ts"]), v3(c["vel"]), v3(c["dir"])
     b = v3(c["b"])
     m = fr(m)
@@ -240,6 +367,8 @@ def coq_comps(c, m, T="T"):
     pol = COQPOL[c.get("pol", "no")]
     if cls == "direct":
         return "[GaussC %s %s %s]" % (qlit(c["R"]), qlit(c["lam"]), qlit(c["sig"]))
+    if cls == "direct_lorentz":
+        return "[LorC %s %s %s]" % (qlit(c["R"]), qlit(c["lam"]), qlit(c["sig"]))
     common = "%s %s" % (qlit(c["w"]), qlit(m))
     tail = "%s %s" % (qlit(c["R"]), qv(c["dir"]))
     if cls == "GaussianLine":
@@ -306,20 +435,43 @@ def rand_vec(rng, scale, exact, kind=None):
     return v
 
 
+def eval_zs(c):
+    """the Zeeman structure's functions (linear in B) at the field strength of the case, as the code evaluates them"""
+    if "zs_funcs" not in c:
+        return
+    bx, by, bz = c["b"]
+    bm = math.sqrt(bx * bx + by * by + bz * bz)
+    for key, grp in zip(("raw_pi", "raw_sp", "raw_sm"), c["zs_funcs"]):
+        c[key] = [(aw + kw * bm, ar + kr * bm) for aw, kw, ar, kr in grp]
+
+
+def gen_forms(rng, cls):
+    """valid ways of passing the same values (results must not depend on them)"""
+    return {"pol_case": rng.choice(["lower", "lower", "upper", "title"]), "pol_default": rng.random() < 0.5,
+            "params": rng.choice(["tuple", "tuple", "numpy", "atomic_data"]), "R": rng.choice(["float", "float", "numpy", "int"]),
+            "w_int": rng.random() < 0.3, "mult": rng.choice(["lists", "tuples", "array", "readonly", "strided", "float32"]),
+            "mse": rng.choice(["float", "callable", "function"]), "zs": rng.choice(["callable", "float", "function1d"]),
+            "zs_container": rng.choice(["list", "tuple"])}
+
+
+def mzero(rng):
+    return rng.choice([0.0, -0.0])
+
+
 def gen_physics(rng, cls, exact, impl):
-    c = {"cls": cls, "exact": exact}
+    c = {"cls": cls, "exact": exact, "forms": gen_forms(rng, cls)}
     c["element"] = rng.randrange(len(impl.elements))
     c["w"] = dyadic(rng, 250, 1100, 4) if exact else rng.uniform(250.0, 1100.0)
     # species temperature: log-uniform 0.05 eV .. 5 keV; one case in 9 has no width
     zw = rng.random() < 0.11
     c["zero_width"] = zw
-    c["ts"] = rng.choice([0.0, -1.0, -0.5]) if zw else (2.0 ** rng.randint(-4, 12) if exact else math.exp(rng.uniform(-3, 8.5)))
-    c["vel"] = [0.0, 0.0, 0.0] if rng.random() < 0.2 else rand_vec(rng, 2e5 if not exact else 131072.0, exact)
+    c["ts"] = rng.choice([0.0, -0.0, -1.0, -0.5, -1e300]) if zw else (2.0 ** rng.choice([-20, -12, -4, -3, -2, -1, 0, 1, 2, 3, 4, 5, 6, 7, 8, 9, 10, 11, 12, 16, 20]) if exact else math.exp(rng.uniform(-3, 8.5)))
+    c["vel"] = [mzero(rng), mzero(rng), mzero(rng)] if rng.random() < 0.2 else rand_vec(rng, 2e5 if not exact else 131072.0, exact)
     c["dir"] = rand_vec(rng, 2.0, exact)
     bk = rng.choice(["zero", "parallel", "perp", "oblique", "oblique", "oblique", "axis"])
     c["b_kind"] = bk
     if bk == "zero":
-        c["b"] = [0.0, 0.0, 0.0]
+        c["b"] = [mzero(rng), mzero(rng), mzero(rng)]
     elif bk == "parallel":
         s = rng.choice([-1, 1]) * 2.0 ** rng.randint(-2, 2)
         c["b"] = [s * t for t in c["dir"]]
@@ -333,23 +485,35 @@ def gen_physics(rng, cls, exact, impl):
     c["ne"] = 2.0 ** rng.randint(60, 70) if exact else 10 ** rng.uniform(18, 21)
     c["te"] = 2.0 ** rng.randint(-2, 10) if exact else math.exp(rng.uniform(-1, 7))
     r = rng.random()
-    c["R"] = 0.0 if r < 0.06 else (1.0 if r < 0.3 else (dyadic(rng, 0.01, 1000, 6) if exact else math.exp(rng.uniform(-5, 30))))
+    c["R"] = mzero(rng) if r < 0.06 else (1.0 if r < 0.3 else (dyadic(rng, 0.01, 1000, 6) if exact else math.exp(rng.uniform(-5, 30))))
     if cls == "MultipletLineShape":
-        n = rng.randint(1, 6)
+        n = rng.choice([1, 1, 2, 2, 3, 4, 5, 6, 9, 10, 11])
         ws = [rng.randint(1, 16) for _ in range(n)]
         tot = 2 ** math.ceil(math.log2(sum(ws)))
         ws[-1] += tot - sum(ws)
         ratios = [x / tot for x in ws]                   # dyadic: the constructor demands sum == 1.0 exactly
         assert sum(ratios) == 1.0
         c["mult"] = [(c["w"] + dyadic(rng, -2, 2, 6), r_) for r_ in ratios]
+        if n >= 2 and rng.random() < 0.25:                 # a repeated wavelength
+            c["mult"][1] = (c["mult"][0][0], c["mult"][1][1])
     if cls == "ParametrisedZeemanTriplet":
         c["abg"] = [dyadic(rng, 0.01, 0.1, 10), rng.choice([0.0, dyadic(rng, 0.0, 2.0, 6)]), rng.choice([0.0, -0.5, dyadic(rng, -1, 1, 4)])]
     if cls == "ZeemanMultiplet":
-        def raw(n, allow_zero):
-            if allow_zero and rng.random() < 0.15:
-                return [(c["w"] + dyadic(rng, -0.5, 0.5, 8), 0.0) for _ in range(n)]       # raw ratios sum to 0: not normalised
-            return [(c["w"] + dyadic(rng, -0.5, 0.5, 8), dyadic(rng, 0.0, 3.0, 5) + 1 / 32) for _ in range(n)]
-        c["raw_pi"], c["raw_sp"], c["raw_sm"] = raw(rng.randint(0, 4), True), raw(rng.randint(1, 4), True), raw(rng.randint(1, 4), True)
+        def grp(n):
+            k = rng.random()
+            out = []
+            for _ in range(n):
+                aw, kw = c["w"] + dyadic(rng, -0.5, 0.5, 8), rng.choice([0.0, dyadic(rng, -0.0625, 0.0625, 8)])
+                if k < 0.12:
+                    ar, kr = 0.0, 0.0                                   # raw ratios sum to 0: returned unnormalised
+                elif k < 0.2:
+                    ar, kr = dyadic(rng, -2.0, 0.5, 5), 0.0             # negative / mixed-sign raw ratios
+                else:
+                    ar, kr = dyadic(rng, 0.0, 3.0, 5) + 1 / 32, rng.choice([0.0, dyadic(rng, -0.125, 0.125, 5)])
+                out.append((aw, kw, ar, kr))
+            return out
+        c["zs_funcs"] = [grp(rng.choice([0, 1, 2, 3, 4])), grp(rng.choice([0, 1, 1, 2, 3, 4])), grp(rng.choice([0, 1, 1, 2, 3, 4]))]
+        eval_zs(c)
     if cls == "StarkBroadenedLine":
         c["stark"] = [rng.choice([3.71e-18, 8.425e-18, 1.31e-15, 3.954e-16]), rng.choice([0.7665, 0.7803, 0.6796, 0.7149]),
                       rng.choice([0.064, 0.050, 0.030, 0.028])]
@@ -421,6 +585,180 @@ def gen_integ(rng):
     if k < 0.7:
         return {"pool": None, "ctor": ctor, "ops": gen_integ_ops(rng, rng.randint(1, 4))}
     return {"pool": rng.randrange(3), "ctor": ctor, "ops": gen_integ_ops(rng, rng.randint(0, 3))}
+
+
+def gen_sequence(rng, cls, impl):
+    """a history for ONE live line-shape object: 2-4 steps; between steps inputs cross the guards of the code
+    (temperature / density / field / radiance: positive -> zero or negative -> positive), the polarisation is changed
+    through its setter, Beam parameters through theirs, values are re-assigned unchanged, and the spectrum object of the
+    previous step is sometimes used again"""
+    c0 = gen_physics(rng, cls, True, impl)
+    steps, cur = [], c0
+    for j in range(rng.randint(2, 4)):
+        c = dict(cur)
+        c.pop("smp0", None)
+        c["forms"] = dict(cur["forms"])
+        muts = []
+        if j > 0:
+            options = ["ts", "b", "R", "dir", "same", "vel"]
+            if cls in POLARISED:
+                options += ["pol", "pol"]
+            if cls in ("StarkBroadenedLine", "BeamEmissionMultiplet"):
+                options += ["ne", "te"]
+            if cls == "BeamEmissionMultiplet":
+                options += ["beam"]
+            guards = ["ts", "b", "R"] + (["ne", "te"] if cls in ("StarkBroadenedLine", "BeamEmissionMultiplet") else [])
+            chosen = [rng.choice(guards)] + ([rng.choice(options)] if rng.random() < 0.7 else [])
+            for m_ in dict.fromkeys(chosen):
+                muts.append(m_)
+                if m_ == "ts":
+                    c["ts"] = rng.choice([0.0, -0.0, -1.0]) if cur["ts"] > 0 else 2.0 ** rng.randint(-3, 10)
+                    if cls == "BeamEmissionMultiplet":
+                        c["btemp"] = max(c["ts"], 0.0)
+                elif m_ == "b":
+                    c["b"] = [mzero(rng)] * 3 if any(cur["b"]) else pyth_vec(rng, 0.75)
+                    c["b_kind"] = "oblique" if any(c["b"]) else "zero"
+                elif m_ == "R":
+                    c["R"] = mzero(rng) if cur["R"] != 0 else dyadic(rng, 0.5, 64, 4)
+                elif m_ == "dir":
+                    c["dir"] = pyth_vec(rng, 0.25)
+                elif m_ == "vel":
+                    c["vel"] = [mzero(rng)] * 3 if any(cur["vel"]) else rand_vec(rng, 131072.0, True)
+                elif m_ == "pol":
+                    c["pol"] = rng.choice([p_ for p_ in POLS if p_ != cur["pol"]])
+                    c["forms"]["pol_case"] = rng.choice(["lower", "upper", "title"])
+                elif m_ == "ne":
+                    c["ne"] = rng.choice([0.0, -0.0, -1e19]) if cur["ne"] > 0 else 2.0 ** rng.randint(60, 70)
+                elif m_ == "te":
+                    c["te"] = rng.choice([0.0, -0.0, -3.0]) if cur["te"] > 0 else 2.0 ** rng.randint(-2, 10)
+                elif m_ == "beam":
+                    c["benergy"] = 2.0 ** rng.randint(13, 17)
+        c["mutations"] = muts
+        c["step"] = j
+        c["reuse_spectrum"] = bool(j > 0 and rng.random() < 0.4)
+        if cls == "StarkBroadenedLine":
+            c["stark_kind"] = "mixed"          # only bounds the number of bins (the kind changes along the history)
+        eval_zs(c)
+        steps.append(c)
+        cur = c
+    return steps
+
+
+def close_ulps(a, b, n=16):
+    import numpy as np
+    a, b = np.asarray(a, dtype=float), np.asarray(b, dtype=float)
+    return bool(np.all(np.abs(a - b) <= n * 2.3e-16 * np.maximum(np.abs(a), np.abs(b)) + 1e-300))
+
+
+def covariance_failures(impl, rng, c):
+    """scale covariance and order / multiplicity independence, evaluated on the implementation (exact or to a few ulp)"""
+    import numpy as np
+    fails = []
+    cls = c["cls"]
+    base = np.array(impl.run(c))
+    if not np.any(base) or not all(math.isfinite(v) for v in base):
+        return fails
+    # radiance scaled by a power of two: every bin scales by exactly that power (no rounding is involved)
+    R = float(c["R"])
+    lo, hi = math.log2(1e-150 / abs(R)), math.log2(1e150 / abs(R))
+    k = rng.randint(int(lo) + 1, int(hi) - 1)
+    sc = np.array(impl.run(dict(c, forms=dict(c.get("forms", {}), R="float")), R=math.ldexp(R, k)))
+    want = np.array([math.ldexp(v, k) for v in base])
+    big = (np.abs(base) > 1e-290) & (np.abs(want) > 1e-290)
+    if not np.array_equal(sc[big], want[big]):
+        i = int(np.nonzero(sc != want)[0][0])
+        fails.append({"claim": "radiance scaled by 2^k scales every bin by exactly 2^k", "cls": cls, "k": k, "bin": i,
+                      "got": float(sc[i]), "want": float(want[i]), "case": dict(c)})
+    # all wavelengths scaled by a power of two (models whose centres and widths are proportional to the wavelength)
+    if cls in ("direct", "direct_lorentz", "GaussianLine", "MultipletLineShape") and not c.get("forms", {}).get("w_int"):
+        f = 2.0 ** rng.choice([-2, -1, 1, 2, 3])
+        c2 = dict(c, gmin=c["gmin"] * f, gmax=c["gmax"] * f)
+        for key in ("w", "lam", "sig"):
+            if key in c2:
+                c2[key] = c2[key] * f
+        if "mult" in c2:
+            c2["mult"] = [(x * f, r_) for x, r_ in c2["mult"]]
+            c2["forms"] = dict(c2["forms"], mult="lists")
+        if c2["gmin"] > 0:
+            sc = np.array(impl.run(c2))
+            want = base / f
+            ok = np.array_equal(sc, want) if cls != "direct_lorentz" else close_ulps(sc, want, 1 << 32)
+            if not ok:
+                i = int(np.nonzero(sc != want)[0][0])
+                fails.append({"claim": "all wavelengths scaled by 2^j scale every bin by exactly 2^-j", "cls": cls, "factor": f,
+                              "bin": i, "got": float(sc[i]), "want": float(want[i]), "case": dict(c)})
+    # order of the components / a component split into two halves: same spectrum up to the order of additions
+    if cls == "MultipletLineShape" and len(c["mult"]) >= 2:
+        perm = list(c["mult"])
+        rng.shuffle(perm)
+        x, r_ = perm[0]
+        split = [(x, r_ / 2), (x, r_ / 2)] + perm[1:]
+        for name, m2 in (("permuted", perm), ("split", split)):
+            if sum(r2 for _, r2 in m2) != 1.0:
+                continue
+            o2 = impl.run(dict(c, mult=m2, forms=dict(c["forms"], mult="lists")))
+            if not close_ulps(o2, base):
+                fails.append({"claim": "multiplet components in another order / one component given as two halves give the same spectrum",
+                              "cls": cls, "variant": name, "mult": m2, "case": dict(c)})
+    if cls == "ZeemanMultiplet" and any(c["b"]):
+        z2 = [list(g) for g in c["zs_funcs"]]
+        for g in z2:
+            rng.shuffle(g)
+        c2 = dict(c, zs_funcs=z2)
+        eval_zs(c2)
+        if not close_ulps(impl.run(c2), base):
+            fails.append({"claim": "Zeeman components listed in another order give the same spectrum", "cls": cls, "case": dict(c)})
+    # the way the values are passed does not matter
+    c3 = dict(c, forms={})
+    if cls not in ("direct", "direct_lorentz") and not np.array_equal(np.array(impl.run(c3)), base):
+        fails.append({"claim": "the form in which arguments are passed (case of strings, tuples / arrays / numpy scalars, explicit "
+                               "arguments / atomic-data defaults, floats / functions) does not change the spectrum", "cls": cls,
+                      "case": dict(c)})
+    return fails
+
+
+def rejection_table(impl):
+    """argument forms the unchanged code rejects: the outcome (exception class) is part of the expected behaviour"""
+    import numpy as np
+    M = impl.M
+    c = {"cls": "GaussianLine", "element": 1, "w": 656.1, "ts": 1.0, "vel": [0, 0, 0], "b": [0, 0, 1.0], "ne": 1e19, "te": 5.0}
+    plasma, sp, line, el = impl.scene(c)
+    ad = impl.ad
+    ZS = impl.ZeemanStructure
+    one = [(656.0, 1.0)]
+    rows = [
+        ("multiplet empty", lambda: M.MultipletLineShape(line, 656.1, sp, plasma, ad, [[], []]), "ValueError"),
+        ("multiplet Nx2 instead of 2xN", lambda: M.MultipletLineShape(line, 656.1, sp, plasma, ad, [[656.0, 0.5], [656.1, 0.25], [656.2, 0.25]]), "ValueError"),
+        ("multiplet ratios sum 1 - 2^-53", lambda: M.MultipletLineShape(line, 656.1, sp, plasma, ad, [[656.0, 656.1], [0.5, 0.5 - 2.0 ** -53]]), "ValueError"),
+        # np.array(..., dtype=float64) keeps the Fortran layout, the C-contiguous memoryview then refuses it
+        ("multiplet as Fortran-ordered 2x3 float64 array", lambda: M.MultipletLineShape(line, 656.1, sp, plasma, ad, np.asfortranarray(
+            np.array([[656.0, 656.1, 656.2], [0.5, 0.25, 0.25]]))), "ValueError"),
+        ("multiplet 1-D", lambda: M.MultipletLineShape(line, 656.1, sp, plasma, ad, [656.0, 1.0]), "ValueError"),
+        ("zeeman structure component as list", lambda: ZS([[656.0, 1.0]], one, one), "TypeError"),
+        ("zeeman structure 3-tuple", lambda: ZS([(656.0, 1.0, 2.0)], one, one), "ValueError"),
+        ("zeeman structure negative field", lambda: ZS(one, one, one)(-1.0, "pi"), "ValueError"),
+        ("polarisation 'circular'", lambda: M.ZeemanTriplet(line, 656.1, sp, plasma, ad, polarisation="circular"), "ValueError"),
+        ("alpha = 0", lambda: M.ParametrisedZeemanTriplet(line, 656.1, sp, plasma, ad, (0.0, 1.0, 0.0)), "ValueError"),
+        ("beta < 0", lambda: M.ParametrisedZeemanTriplet(line, 656.1, sp, plasma, ad, (0.1, -1.0, 0.0)), "ValueError"),
+        ("line parameters as list", lambda: M.ParametrisedZeemanTriplet(line, 656.1, sp, plasma, ad, [0.1, 1.0, 0.0]), "TypeError"),
+        ("stark c_ij = 0", lambda: M.StarkBroadenedLine(line, 656.1, sp, plasma, ad, (0.0, 0.7, 0.05)), "ValueError"),
+        ("stark a_ij < 0", lambda: M.StarkBroadenedLine(line, 656.1, sp, plasma, ad, (1e-18, -0.7, 0.05)), "ValueError"),
+        ("stark b_ij = 0", lambda: M.StarkBroadenedLine(line, 656.1, sp, plasma, ad, (1e-18, 0.7, 0.0)), "ValueError"),
+        ("StarkFunction wavelength 0", lambda: impl.StarkFunction(0.0, 0.1), "ValueError"),
+        ("StarkFunction fwhm -0.0", lambda: impl.StarkFunction(656.0, -0.0), "ValueError"),
+        ("base class add_line", lambda: M.LineShapeModel(line, 656.1, sp, plasma, ad).add_line(1.0, impl.Point3D(0, 0, 0), impl.Vector3D(1, 0, 0), impl.Spectrum(600, 700, 4)), "NotImplementedError"),
+        ("zeeman structure unknown polarisation string", lambda: ZS(one, one, one)(1.0, "circular"), "ValueError|AttributeError"),
+    ]
+    bad = []
+    for name, f, want in rows:
+        try:
+            f()
+            got = "accepted"
+        except Exception as e:      # the class of the rejection is what is compared
+            got = type(e).__name__
+        if got not in want.split("|"):
+            bad.append({"form": name, "expected": want, "observed": got})
+    return len(rows), bad
 
 
 WINDOW_KINDS = ["spans", "spans", "straddle_left", "straddle_right", "inside_narrow", "one_bin", "outside_left",
@@ -518,6 +856,12 @@ def gen_direct(rng, exact, quick):
         lam = gmin + dl * bins / 2 + rng.randint(-12 * 16, 12 * 16) * sig / 16 * rng.choice([0.25, 1, 1, 4])
         # snap so that lam +- 10 sig is a multiple of a small power of two
         c.update(gmin=gmin, gmax=gmin + dl * bins, bins=bins, lam=lam, sig=sig)
+        if rng.random() < 0.25:
+            # one ulp either side of a configuration whose cut-off wavelengths sit on bin edges: the values are compared as
+            # usual, the floor/ceil decisions are then taken by rounding and are counted as ambiguous by the support probe
+            c["lam"] = math.nextafter(lam, rng.choice([-math.inf, math.inf]))
+            c["exact"] = False
+            c["ulp_nudged"] = True
     else:
         gmin = rng.uniform(300, 900)
         gmax = gmin + rng.uniform(0.01, 5)
@@ -783,7 +1127,7 @@ def run(ctx):
     rng = ctx.rng
     quick = ctx.quick
 
-    n_class = 30 if quick else 400          # per class
+    n_class = 24 if quick else 400          # per class
     n_direct = 60 if quick else 700
     n_support = 120 if quick else 1500
     cases = []
@@ -846,6 +1190,95 @@ def run(ctx):
             dist["exact_stream"] += int(exact)
             nontrivial += int(any(a != b for a, b in zip(out, c.get("smp0") or [0.0] * c["bins"])))
             search_fails += property_failures(impl, W, c, m, out)
+    # ---- histories on one live object -----------------------------------------------------------------
+    n_seq = 3 if quick else 30
+    dist["sequences"] = {"objects": 0, "steps": 0, "spectrum_reused": 0, "mutations": {}}
+    for cls in CLASSES:
+        for k in range(n_seq):
+            steps = gen_sequence(rng, cls, impl)
+            lv = impl.live(steps[0])
+            dist["sequences"]["objects"] += 1
+            prev = None
+            for c in steps:
+                m = atomic_weight(impl, c)
+                T = orc.Tabs()
+                W = orc.Walk(T, K, fr(s2f))
+                comps = walk_case(W, c, m)
+                if c["reuse_spectrum"] and prev is not None:
+                    c["gmin"], c["gmax"], c["bins"], c["window"] = prev["gmin"], prev["gmax"], prev["bins"], prev["window"]
+                    c["smp0"] = list(prev_out)
+                    dist["sequences"]["spectrum_reused"] += 1
+                else:
+                    c["reuse_spectrum"] = False
+                    gen_window(rng, c, comps, True, quick)
+                c["delta"] = float(impl.spectrum(c).delta_wavelength)
+                ctx.crumb(c)
+                out = impl.run_live(lv, c, c["reuse_spectrum"])
+                fresh = impl.run(c, smp0=c.get("smp0"))
+                dist["sequences"]["steps"] += 1
+                for m_ in c["mutations"]:
+                    bump(dist["sequences"]["mutations"], m_)
+                if out != fresh:
+                    i = [a == b for a, b in zip(out, fresh)].index(False)
+                    search_fails.append({"claim": "a line-shape object driven through a history adds what a freshly built object adds",
+                                         "cls": cls, "bin": i, "live": out[i], "fresh": fresh[i], "case": dict(c),
+                                         "history": [dict(st, smp0=None) for st in steps[:c["step"] + 1]]})
+                if all(math.isfinite(v) for v in out):
+                    cases.append((c, m, T, comps, out))
+                    bump(dist["class"], cls + " (live)")
+                    nontrivial += int(any(a != b for a, b in zip(out, c.get("smp0") or [0.0] * c["bins"])))
+                    search_fails += property_failures(impl, W, c, m, out)
+                prev, prev_out = c, out
+    # ---- every ordered transition of the polarisation setter on one live object per class (implementation only) ----
+    n_walk = 0
+    for cls in POLARISED:
+        for rep_ in range(2 if quick else 12):
+            c0 = gen_physics(rng, cls, True, impl)
+            c0["zero_width"] = False
+            if c0["ts"] <= 0:
+                c0["ts"] = 4.0
+            if c0["R"] == 0:
+                c0["R"] = 2.0
+            if cls == "StarkBroadenedLine" and not (c0["ne"] > 0 and c0["te"] > 0):
+                c0["ne"], c0["te"] = 2.0 ** 64, 8.0
+            eval_zs(c0)
+            T = orc.Tabs()
+            W = orc.Walk(T, K, fr(s2f))
+            gen_window(rng, c0, walk_case(W, c0, atomic_weight(impl, c0), pol="no"), True, quick)
+            lv = impl.live(c0)
+            for pol in ("pi", "sigma", "no", "pi", "no", "sigma", "pi", "pi"):
+                c = dict(c0, pol=pol, forms=dict(c0["forms"], pol_case=rng.choice(["lower", "upper", "title"])))
+                ctx.crumb(c)
+                out = impl.run_live(lv, c, False)
+                fresh = impl.run(c)
+                n_walk += 1
+                if out != fresh:
+                    i = [a == b for a, b in zip(out, fresh)].index(False)
+                    search_fails.append({"claim": "after a sequence of polarisation-setter calls the object adds what a freshly built "
+                                                  "object with that polarisation adds", "cls": cls, "polarisation_now": pol, "bin": i,
+                                         "live": out[i], "fresh": fresh[i], "case": dict(c)})
+                    break
+    dist["polarisation_setter_walk_steps"] = n_walk
+    # ---- direct calls of add_lorentzian_line (explicit integrator argument) ---------------------------------
+    for k in range(10 if quick else 150):
+        fw = 2.0 ** rng.randint(-6, 1)
+        lam = float(rng.randint(300, 900)) + dyadic(rng, 0, 1, 4)
+        bins = rng.choice([1, 2, 3, 5, 8, 12])
+        dl = fw / rng.choice([1, 2, 4])
+        gmin = lam + dl * rng.randint(-3 * bins, bins) if rng.random() < 0.8 else lam + rng.choice([-1, 1]) * 50 * fw - dl * rng.randint(0, bins)
+        c = {"cls": "direct_lorentz", "exact": True, "lam": lam, "sig": fw if rng.random() > 0.1 else rng.choice([0.0, -0.0, -fw]),
+             "gmin": gmin, "gmax": gmin + dl * bins, "bins": bins, "R": dyadic(rng, 0.0, 64, 6), "window": "direct_lorentz",
+             "integ": gen_integ(rng)}
+        c["delta"] = float(impl.spectrum(c).delta_wavelength)
+        T = orc.Tabs()
+        W = orc.Walk(T, K, fr(s2f))
+        comps = walk_case(W, c, None)
+        ctx.crumb(c)
+        out = impl.run(c)
+        cases.append((c, None, T, comps, out))
+        bump(dist["class"], "add_lorentzian_line")
+        nontrivial += int(any(out))
+        search_fails += property_failures(impl, W, c, None, out)
     # ---- direct calls of add_gaussian_line ----------------------------------------------------
     for k in range(n_direct):
         exact = (k % 2 == 0)
@@ -862,6 +1295,51 @@ def run(ctx):
         bump(dist["class"], "add_gaussian_line"); bump(dist["bins"], c["bins"])
         nontrivial += int(any(a != b for a, b in zip(out, c.get("smp0") or [0.0] * c["bins"])))
         search_fails += property_failures(impl, W, c, None, out)
+    # ---- scale covariance, order / multiplicity, argument forms (on the implementation) ------------------------
+    n_cov = 0
+    for c, m, T, comps, out in list(cases):
+        if c.get("step") is None and c["R"] != 0 and (quick is False or n_cov < 120 or rng.random() < 0.3):
+            ctx.crumb(c)
+            search_fails += covariance_failures(impl, rng, dict(c, smp0=None))
+            n_cov += 1
+    dist["covariance_cases"] = n_cov
+    n_rej, bad_rej = rejection_table(impl)
+    ctx.obligation("rejected argument forms (%d rows)" % n_rej, "search", not bad_rej, str(bad_rej))
+    for b_ in bad_rej:
+        search_fails.append(dict(b_, claim="an argument form is accepted / rejected as on the reference tree", cls="constructors"))
+    # ---- second-order entry points: doppler_shift, thermal_broadening, ZeemanStructure.__call__, StarkFunction ----------
+    misc = []
+    for k in range(40 if quick else 400):
+        exact = k % 2 == 0
+        T = orc.Tabs()
+        W = orc.Walk(T, K, fr(s2f))
+        w = dyadic(rng, 250, 1100, 4) if exact else rng.uniform(250, 1100)
+        d, v = rand_vec(rng, 2.0, exact), rand_vec(rng, 2e5 if not exact else 131072.0, exact)
+        got = float(impl.doppler_shift(w, impl.Vector3D(*d), impl.Vector3D(*v)))
+        W.doppler(fr(w), v3(d), v3(v))
+        misc.append("check_doppler %s K %s %s %s %s" % (orc.tabs_text(T), qlit(w), qv(d), qv(v), qlit(got)))
+        T = orc.Tabs()
+        W = orc.Walk(T, K, fr(s2f))
+        t_, m_ = (2.0 ** rng.randint(-6, 14), float(rng.choice([1, 2, 4, 12, 184]))) if exact else (math.exp(rng.uniform(-5, 10)), rng.uniform(1, 200))
+        got = float(impl.thermal_broadening(w, t_, m_))
+        W.thermal(fr(w), fr(t_), fr(m_))
+        misc.append("check_thermal %s K %s %s %s %s" % (orc.tabs_text(T), qlit(w), qlit(t_), qlit(m_), qlit(got)))
+        cz = gen_physics(rng, "ZeemanMultiplet", True, impl)
+        zs = impl.zeeman_structure(cz, cz["forms"])
+        bm = abs(dyadic(rng, 0, 8, 4)) if rng.random() > 0.1 else 0.0
+        cz["b"] = [bm, 0.0, 0.0]
+        eval_zs(cz)
+        for key, name in (("raw_pi", "pi"), ("raw_sp", rng.choice(["sigma_plus", "SIGMA_PLUS"])), ("raw_sm", "sigma_minus")):
+            arr = zs(bm, name)
+            misc.append("check_zs %s %s %s" % (qpairs(cz[key]), qlist([float(x) for x in arr[0]]), qlist([float(x) for x in arr[1]])))
+        fwv, x0 = 2.0 ** rng.randint(-6, 2), rng.uniform(300, 900)
+        x = x0 + fwv * rng.uniform(-60, 60)
+        dens = float(impl.StarkFunction(x0, fwv)(x))
+        ref = 1.0 / (1.0 + (abs(x - x0) / (0.5 * fwv)) ** 2.5) / (0.5 * fwv) / (2.0 * orc._H100)
+        if not abs(dens - ref) <= 1e-12 * ref:
+            search_fails.append({"claim": "StarkFunction is the modified Lorentzian normalised on +-50 FWHM", "cls": "StarkFunction",
+                                 "x0": x0, "fwhm": fwv, "x": x, "got": dens, "want": ref})
+    dist["second_order_entry_points"] = len(misc) + (40 if quick else 400)
     # ---- support probes: radiance = +inf leaves non-finite values exactly in [start, end) -----------
     probes = []
     ambiguous = 0
@@ -928,9 +1406,13 @@ def run(ctx):
                + "Definition results : list bool := [\n  " + ";\n  ".join(quad_text(r) for r in chunk)
                + "].\nEval vm_compute in (failing results).\n")
         files.append((ctx.write_gen("quadrature_%03d.v" % (si // per), txt), list(range(si, si + len(chunk))), "quad"))
+    for si in range(0, len(misc), 250):
+        chunk = misc[si:si + 250]
+        txt = header + "Definition results : list bool := [\n  " + ";\n  ".join(chunk) + "].\nEval vm_compute in (failing results).\n"
+        files.append((ctx.write_gen("misc_%03d.v" % (si // 250), txt), list(range(si, si + len(chunk))), "misc"))
     ctx.log("generated %d value cases, %d support probes (%d ambiguous skipped); running coqc" % (len(cases), len(probes), ambiguous))
     res = coqc_many([f for f, _, _ in files], timeout=1500)
-    diff_cases, diff_probes, diff_quads = [], [], []
+    diff_cases, diff_probes, diff_quads, diff_misc = [], [], [], []
     max_usage = 0.0
     for f, ids, kind in files:
         ok, out = res[f]
@@ -945,7 +1427,7 @@ def run(ctx):
                        good and not failing, out if not good else "DIFF at local indices %s" % failing)
         if not good:
             ctx.broken.append("coqc failed on %s: %s" % (f, out[-600:]))
-        {"values": diff_cases, "support": diff_probes, "quad": diff_quads}[kind].extend(ids[i] for i in failing)
+        {"values": diff_cases, "support": diff_probes, "quad": diff_quads, "misc": diff_misc}[kind].extend(ids[i] for i in failing)
     ctx.log("correspondence: %d value cases (%d disagree), %d support probes (%d disagree)" % (
         len(cases), len(diff_cases), len(probes), len(diff_probes)))
 
@@ -960,6 +1442,7 @@ def run(ctx):
             ang = math.pi * (k + 0.37) / (6 if quick else 40)
             c["dir"] = [1.0, 0.0, 0.0]
             c["b"] = [2.5 * math.cos(ang), 2.5 * math.sin(ang), 0.0]
+            eval_zs(c)
             m = atomic_weight(impl, c)
             T = orc.Tabs()
             W = orc.Walk(T, K, fr(s2f))
@@ -998,6 +1481,9 @@ def run(ctx):
         ctx.violation(key, "%s: %s" % (sf["cls"], sf["claim"]), sf, found=True)
         if len(seen) >= 6:
             break
+    for mi in diff_misc[:3]:
+        ctx.violation("c02:entry-point:" + misc[mi].split()[0], "a public helper (doppler_shift / thermal_broadening / ZeemanStructure.__call__) "
+                      "returns another value than the model", {"coq_case": misc[mi][:3000]}, found=True)
     for qi in diff_quads[:3]:
         r = quads[qi]
         ctx.violation("c02:GaussianQuadrature:setter-history",
